@@ -396,3 +396,16 @@ func (p *LabelPP) PostProcessProperties(props []*component_definition.Property, 
 	}
 	return nil, nil
 }
+
+// NamePP is a user post-processor (merely ordered, behind the built-ins, created before the refresh)
+// with by-name injection points of its own.
+type NamePP struct {
+	processors.DefaultComponentPostProcessor
+	One    IA  `wire:"np-target"`
+	AnyOne any `wire:"np-target"`
+	Absent IA  `wire:"np-absent,required=false"`
+	Req    IA  `wire:"np-req"`
+}
+
+func (p *NamePP) Naming() string { return "verif.namepp" }
+func (p *NamePP) Order() int     { return 100 }
